@@ -198,7 +198,7 @@ func c20r2(w *World, rr *RuleRun) {
 	reply := w.P.Func("(*Server).reply")
 	sendError := w.P.Func("(*Server).sendError")
 	for _, owner := range []*ssa.Function{reply, sendError} {
-		calls := w.CallsIn(owner, sendFn, true)
+		calls := w.CallsInRegion(owner, sendFn)
 		if len(calls) == 0 {
 			rr.Oblige(shortFuncName(owner), "reply/error goes through the rated send routine", w.P.Pos(owner.Pos()), false, "no call of "+shortFuncName(sendFn)+" inside "+shortFuncName(owner))
 			continue
